@@ -1,11 +1,11 @@
 From Coq Require Import List Arith Lia Bool.
 Import ListNotations.
-From LSConc Require Import Clock Mach Inv Pres Pres2 Pres3 Pres4 Pres5 Pres6 StepSpec.
+From LSConc Require Import Clock Mach Inv Pres Pres2 Pres3 Pres4 Pres5 Pres6 Pres7 StepSpec.
 
 Lemma pres s t a s' : Inv s -> step s t a = Ok s' -> Inv s'.
 Proof.
   destruct a; eauto using pres_read, pres_write, pres_clone, pres_release, pres_free, pres_probe,
-    pres_spawn, pres_join, pres_fence, pres_readm.
+    pres_spawn, pres_join, pres_fence, pres_readm, pres_lend, pres_readb, pres_joinb.
 Qed.
 
 Lemma T_init n u : T (init n) u = if Nat.eqb u 0 then nth 0 (ths (init n)) dth else dth.
@@ -31,6 +31,7 @@ Proof.
   - intros t p m _ Hp Hn. cbn in Hn. destruct p as [|p]; [lia|]. destruct p; discriminate.
   - intros t. rewrite T_init. destruct t; cbn; [discriminate|auto].
   - cbn. rewrite total_repeat. intros _ H. discriminate H.
+  - intros c p. rewrite T_init. destruct c; cbn; discriminate.
 Qed.
 
 (* every schedule, any number of threads, any (well-typed) action at each step, stale probes included *)
@@ -50,13 +51,13 @@ Qed.
    buffer — a write (or realloc) step is only possible for the one and only holder, a free step only when nobody holds *)
 Theorem write_excludes_others s u s' : Inv s -> step s u AWrite = Ok s' -> forall t, t <> u -> refs (getth s t) = 0.
 Proof.
-  intros I H t Hne. destruct (StepSpec.step_spec s u AWrite s' H) as (_ & _ & _ & _ & _ & He & _). cbn in He.
+  intros I H t Hne. destruct (StepSpec.step_spec s u AWrite s' H) as (_ & _ & _ & _ & _ & _ & He & _). cbn in He.
   destruct (J5 s I u He) as (_ & H1 & Htot & _).
   pose proof (total_ge2 (ths s) t u Hne). unfold T, getth in *. lia.
 Qed.
 Theorem free_excludes_holders s u s' : Inv s -> step s u AFree = Ok s' -> forall t, refs (getth s t) = 0.
 Proof.
-  intros I H t. destruct (StepSpec.step_spec s u AFree s' H) as (_ & _ & _ & _ & _ & Hm & _). cbn in Hm.
+  intros I H t. destruct (StepSpec.step_spec s u AFree s' H) as (_ & _ & _ & _ & _ & _ & Hm & _). cbn in Hm.
   destruct (J4 s I u Hm) as (_ & H0 & _). pose proof (total_ge (ths s) t). unfold getth. lia.
 Qed.
 
@@ -73,13 +74,48 @@ Proof.
     pose proof (total_ge (ths s) t). unfold getth in Hr. lia.
   - inversion Hne as [|? ? Hu Hne']; subst. cbn [fst] in Hu.
     destruct (step s u a) as [s1|e|] eqn:E; try discriminate.
-    destruct (StepSpec.step_spec s u a s1 E) as (_ & _ & _ & _ & Hoth & Hspec).
+    destruct (StepSpec.step_spec s u a s1 E) as (_ & _ & _ & _ & Hoth & Hlendt & Hspec).
     assert (Hst : started (getth s t) = true).
     { destruct (started (getth s t)) eqn:Hs; [reflexivity|]. destruct (J8 s I t Hs) as (H0 & _). unfold T in H0. lia. }
     assert (Hsame : getth s1 t = getth s t).
-    { apply Hoth; [auto|]. intros c k ->. cbn in Hspec. destruct Hspec as (_ & _ & Hsc & _). intros ->. congruence. }
+    { apply Hoth; [auto|]. destruct a; cbn [second]; try discriminate; intros [= ->]; cbn in E.
+      - (* spawn into t: t is started *)
+        cbn in Hspec. destruct Hspec as (_ & _ & Hsc & _). congruence.
+      - (* lend to t: t is started *)
+        unfold step in E. destruct (Nat.ltb u (length (ths s))); cbn [negb] in E; [|discriminate].
+        destruct (started (getth s u)); cbn [negb] in E; [|discriminate].
+        rewrite Hst in E. rewrite !orb_true_r in E. cbn [orb] in E.
+        destruct (Nat.eqb t u); cbn [orb] in E; [discriminate|].
+        destruct (negb (Nat.ltb t (length (ths s)))); cbn [orb] in E; discriminate.
+      - (* join borrower t: t holds a reference, a joined borrower holds none *)
+        unfold step in E. destruct (Nat.ltb u (length (ths s))); cbn [negb] in E; [|discriminate].
+        destruct (started (getth s u)); cbn [negb] in E; [|discriminate].
+        destruct (Nat.ltb_spec 0 (refs (getth s t))) as [_|Hc]; [|lia].
+        rewrite !orb_true_r in E. destruct (Nat.eqb t u); cbn [orb] in E; [discriminate|].
+        destruct (negb (Nat.ltb t (length (ths s)))); cbn [orb] in E; [discriminate|].
+        destruct (negb (Nat.eqb (lend (getth s t)) (S u))); cbn [orb] in E; discriminate. }
     destruct (IH s1 s' (pres _ _ _ _ I E) ltac:(rewrite Hsame; exact Hr) Hne' Hrun) as (F & G & L).
     split; [|split; [congruence|exact L]]. constructor; [|exact F]. cbn [snd]. split; intros ->.
     + pose proof (write_excludes_others s u s1 I E t ltac:(auto)). lia.
     + pose proof (free_excludes_holders s u s1 I E t). lia.
+Qed.
+
+(* ---------- lending: &handle shared with a scoped thread ---------- *)
+Lemma run_inv l : forall s s', Inv s -> run s l = Ok s' -> Inv s'.
+Proof.
+  induction l as [|[t a] l IH]; intros s s' I H; cbn [run] in H; [injection H as <-; exact I|].
+  destruct (step s t a) as [s1|e|] eqn:E; try discriminate. apply (IH s1 s'); [eapply pres; eauto|exact H].
+Qed.
+(* in every reachable state, while some thread reads through a handle lent by p: the buffer is live, p still holds its
+   reference, and no thread is exclusive (so nobody can write or reallocate) or must free *)
+Theorem borrowed_buffer_protected n sched s c p :
+  run (init n) sched = Ok s -> lend (getth s c) = S p ->
+  Mach.live s = true /\ refs (getth s p) > 0
+  /\ forall q, excl (getth s q) = false /\ mustfree (getth s q) = false.
+Proof.
+  intros Hrun El. pose proof (run_inv sched _ _ (inv_init n) Hrun) as I.
+  split; [exact (borrower_live s c p I El)|]. destruct (J10 s I c p El) as (_ & _ & Hr & _). split; [exact Hr|].
+  intros q. split.
+  - destruct (excl (getth s q)) eqn:He; [exfalso; exact (borrower_no_excl s c p q I El He)|reflexivity].
+  - destruct (mustfree (getth s q)) eqn:Hm; [exfalso; exact (borrower_no_mustfree s c p q I El Hm)|reflexivity].
 Qed.
